@@ -39,7 +39,8 @@ from nanoemoji.paint import (
     PaintColrLayers,
     is_transform,
 )
-from picosvg.geometric_types import Rect
+from math import hypot
+from picosvg.geometric_types import Rect, almost_equal
 from nanoemoji.reorder_glyphs import reorder_glyphs
 from picosvg.svg import to_element, SVG, SVGTraverseContext
 from picosvg import svg_meta
@@ -339,16 +340,30 @@ def _map_gradient_coordinates(
         )
     elif isinstance(paint, PaintRadialGradient):
         scalex, scaley = affine.getscale()
-        if not scalex or abs(scalex) != abs(scaley):
-            raise ValueError(
-                f"Expected uniform scale and/or translate, found: {affine}"
-            )
+        if (affine.b, affine.c) == (0, 0):
+            # the common case: no rotation or skew
+            if not scalex or abs(scalex) != abs(scaley):
+                raise ValueError(
+                    f"Expected uniform scale and/or translate, found: {affine}"
+                )
+            scale = abs(scalex)
+        else:
+            # circles only stay circles under a similarity (e.g. a rotated user transform)
+            scale = hypot(affine.a, affine.b)
+            if (
+                not scale
+                or not almost_equal(hypot(affine.c, affine.d), scale)
+                or not almost_equal(affine.a * affine.c + affine.b * affine.d, 0)
+            ):
+                raise ValueError(
+                    f"Expected uniform scale and/or translate, found: {affine}"
+                )
         return dataclasses.replace(
             paint,
             c0=affine.map_point(paint.c0),
             c1=affine.map_point(paint.c1),
-            r0=affine.map_vector((paint.r0, 0)).x,
-            r1=affine.map_vector((paint.r1, 0)).x,
+            r0=paint.r0 * scale,
+            r1=paint.r1 * scale,
         )
     raise TypeError(type(paint))
 
